@@ -34,6 +34,22 @@ def gen(rng, max_n=7):
         else:
             s["usearg"] = rng.random() < 0.5
             s["failx"] = s["usearg"] and rng.random() < 0.4
+    for i, s in enumerate(specs):
+        s["flag"] = None
+        s["deep"] = []
+        if s["setup"]:
+            continue
+        # an activation flag: the whole result of an earlier node (a tuple = truthy, None = falsy)
+        if i > 0 and rng.random() < 0.2:
+            s["flag"] = rng.randrange(i)
+        # a use  v[-2][0]  of a predecessor that receives the DAG arguments: fine when x is a tuple, a bare
+        # TypeError at argument resolution (not inside any node function) when x is an int
+        cands = [j for j in s["preds"] if specs[j]["usearg"] and not specs[j].get("retnone")]
+        if cands and rng.random() < 0.25:
+            s["deep"] = [rng.choice(cands)]
+            # v[-2][0]: x a tuple is fine, x an int raises AttributeError;  v[-2]["k"]: x a dict is fine, x a tuple
+            # raises TypeError (the two bare exception types argument resolution produces)
+            s["deepkey"] = rng.choice(["i0", "sk"])
     return dict(n=n, specs=specs, is_async=rng.random() < 0.3)
 
 
@@ -55,10 +71,14 @@ def build(sc, maxc=2):
     def describe(x, y=7):
         vals = []
         for i, s in enumerate(sc["specs"]):
-            args = [vals[j] for j in s["preds"]]
+            dk = 0 if s.get("deepkey", "i0") == "i0" else "k"
+            args = [(vals[j][-2][dk] if j in s.get("deep", []) else vals[j]) for j in s["preds"]]
             if s["usearg"]:
                 args += [x, y]
-            vals.append(nodes[i](*args))
+            kw = {}
+            if s.get("flag") is not None:
+                kw["twz_active"] = vals[s["flag"]]
+            vals.append(nodes[i](*args, **kw))
         return tuple(vals)
 
     describe.__qualname__ = describe.__name__ = "describe"
@@ -71,6 +91,8 @@ def nxg(sc):
     for i, s in enumerate(sc["specs"]):
         for p in s["preds"]:
             g.add_edge(p, i)
+        if s.get("flag") is not None:
+            g.add_edge(s["flag"], i)        # the producer of the activation flag is a dependency
     return g
 
 
@@ -97,6 +119,8 @@ def enc(v):
         return "S %s" % v
     if isinstance(v, tuple):
         return ("( %d %s" % (len(v), " ".join(enc(x) for x in v))).strip()
+    if isinstance(v, dict):
+        return ("{ %d %s" % (len(v), " ".join("%s %s" % (k, enc(x)) for k, x in v.items()))).strip()
     raise TypeError(v)
 
 
@@ -111,14 +135,18 @@ def render(v):
         return "S%s" % v
     if isinstance(v, tuple):
         return "(" + ",".join(render(x) for x in v) + ")"
+    if isinstance(v, dict):
+        return "{" + ",".join("%s:%s" % (k, render(x)) for k, x in v.items()) + "}"
     return "?" + repr(v)
 
 
 def header(hid, sc):
     out = ["H %s %d" % (hid, sc["n"])]
     for s in sc["specs"]:
-        out.append("N %d %d %d %d %s" % (int(s["setup"]), int(s["failx"]), int(s["usearg"]), int(bool(s.get("retnone"))),
-                                         " ".join(map(str, s["preds"]))))
+        out.append("N %d %d %d %d %s %s" % (int(s["setup"]), int(s["failx"]), int(s["usearg"]), int(bool(s.get("retnone"))),
+                                            "-" if s.get("flag") is None else s["flag"],
+                                            " ".join((("%d~" % p) + ("k" if s.get("deepkey") == "sk" else "") if p in s.get("deep", [])
+                                                      else str(p)) for p in s["preds"])))
     return out
 
 
@@ -131,7 +159,7 @@ def gen_ops(rng, sc, length, kinds):
     for _ in range(length):
         k = rng.choice(kinds)
         inst = rng.randrange(ninst)
-        args = rng.choice([(1,), (2, 3), (5, 6), (13,), (13, 1), (4,)])
+        args = rng.choice([(1,), (2, 3), (5, 6), (13,), (13, 1), (4,), ((7, 8),), ((7, 8), 2), ({"k": 5},)])
         if k == "call":
             ops.append(dict(op="call", inst=inst, args=args))
         elif k == "exec":
@@ -147,8 +175,17 @@ def gen_ops(rng, sc, length, kinds):
             ninst += 1
         elif k == "rerun":
             T = sorted(rng.sample(range(n), rng.randint(1, min(3, n))))
-            ops.append(dict(op="rerun", inst=inst, T=rng.choice([None, T]), args=args,
-                            args2=rng.choice([(1,), (8, 9), (13,)])))
+            args2 = rng.choice([(1,), (8, 9), (13,), ((7, 8),), ((3, 4), 1)])
+            if any(s_.get("deep") for s_ in sc["specs"]) and rng.random() < 0.6:
+                # first run fails at argument resolution (int x), the second would succeed (tuple x)
+                dks = {s_.get("deepkey", "i0") for s_ in sc["specs"] if s_.get("deep")}
+                if dks == {"sk"}:
+                    args = rng.choice([((7, 8),), ((3, 4), 1)])       # tuple["k"]: TypeError
+                    args2 = rng.choice([({"k": 5},), ({"k": 0}, 2)])
+                else:
+                    args = rng.choice([(1,), (4,), (2, 3)])           # int[0]: AttributeError
+                    args2 = rng.choice([((7, 8),), ((3, 4), 1)])
+            ops.append(dict(op="rerun", inst=inst, T=rng.choice([None, T]), args=args, args2=args2))
         elif k == "config":
             ops.append(dict(op="config", inst=inst, node=rng.randrange(n), prio=rng.choice([3, -2, 8])))
         elif k == "compose":
@@ -233,6 +270,10 @@ def run_history(sc, ops):
                 return ("FAIL", "Boom13")
             if isinstance(e, TawaziUsageError):
                 return ("REFUSED",)
+            dict_arg = any(isinstance(a_, dict) for key_ in ("args", "args2") for a_ in (op.get(key_) or ()))
+            if any(s_.get("deep") for s_ in sc["specs"]) and (
+                    isinstance(e, (TypeError, AttributeError, IndexError)) or (isinstance(e, KeyError) and dict_arg)):
+                return ("FAIL", "BadIndex")      # the  v[-2][k]  use failed at argument resolution: a failing run
             return ("EXC", type(e).__name__, str(e)[:160])
 
         if op["op"] == "call":
